@@ -108,7 +108,7 @@ variable is a compiled regular expression (safe for concurrent use), a `reflect.
 (read-only, given that there is no write) (`tools/pkgstate`, re-run on every check; a new mutable global, or a global of a
 kind whose mutability cannot be judged syntactically, breaks this theorem) -/
 theorem no_mutable_package_state :
-    Generated.packageWrites = [] ∧
+    Generated.packageWrites = [] ∧ Generated.packageAliases = [] ∧
     Generated.packageVarKinds.all (fun p => p.2 == "regexp" || p.2 == "reflect.Type" || p.2 == "map-literal") = true := by
   decide
 
